@@ -691,6 +691,36 @@ func (b *builder) addFixed() {
 		Method{Name: "Store", Params: []Param{{"user", str}, {"pw", str}}})
 	t.FixedRequests = append(t.FixedRequests, []string{"FxMailer", "FxVault"}, []string{"FxVault", "FxMailer"}, []string{"FxNotifier"}, []string{"FxSort", "FxIO"},
 		[]string{"FxSingle", "FxEmpty"}, []string{"FxEmpty", "FxSingle"}, []string{"FxMeter", "FxMarker", "FxEmpty"}, []string{"FxEmpty", "FxMarker"})
+	// parameters named like packages that only the results of the method need (matters under -stub)
+	urlD := b.std("net/url")
+	mk("FxResolver",
+		Method{Name: "Parse", Params: []Param{{"url", str}}, Results: []Param{{"", ptr(pkgT(urlD, "URL"))}, {"", er}}},
+		Method{Name: "Next", Params: []Param{{"time", i64}, {"zone", str}}, Results: []Param{{"", pkgT(b.std("time"), "Time")}, {"", bl}}},
+		Method{Name: "Stat", Params: []Param{{"u", ptr(pkgT(urlD, "URL"))}}})
+	// generic instances nested inside instances of the same package, the inner one bringing a new package
+	if len(t.Deps) > 0 {
+		d0 := t.Deps[0]
+		boxOf := func(x *T) *T { return &T{Kind: KLocal, Name: t.Locals.Gen, Args: []*T{x}} }
+		genOf := func(x *T) *T { return &T{Kind: KPkg, Pkg: d0, Name: d0.Gen, Args: []*T{x}} }
+		mk("FxNested",
+			Method{Name: "Walk", Params: []Param{{"p", boxOf(boxOf(pkgT(d0, d0.Struct)))}}},
+			Method{Name: "Pairs", Results: []Param{{"", genOf(genOf(local(t.Locals.Struct)))}}},
+			Method{Name: "Rewrite", Params: []Param{{"fn", &T{Kind: KFunc, Params: []*T{boxOf(str)}, Results: []*T{boxOf(pkgT(d0, d0.Num))}}}}, Results: []Param{{"", er}}})
+		v := &T{Kind: KTParam, Name: "V"}
+		t.Ifaces = append(t.Ifaces, &Iface{Name: "FxNestedGen", File: file, Exportable: true, Tags: []string{"fixed"},
+			TParams: []TParam{{Name: "V", CKind: "any", Arg: basic("int")}},
+			Methods: []Method{
+				{Name: "Rewrite", Params: []Param{{"fn", &T{Kind: KFunc, Params: []*T{boxOf(v)}, Results: []*T{boxOf(pkgT(d0, d0.Struct))}}}}, Results: []Param{{"", er}}},
+				{Name: "Page", Params: []Param{{"k", v}}, Results: []Param{{"", genOf(genOf(v))}}}}})
+	}
+	// a type parameter bounded by a constraint that mentions itself
+	{
+		tp := &T{Kind: KTParam, Name: "T"}
+		t.Ifaces = append(t.Ifaces, &Iface{Name: "FxFBound", File: file, Exportable: true, NeedsSkipEnsure: true, Tags: []string{"fixed"},
+			TParams: []TParam{{Name: "T", CKind: "fbound", Arg: local(t.Locals.Key),
+				Constraint: &T{Kind: KIface, Methods: []IMethod{{Name: "Less", Params: []*T{tp}, Results: []*T{bl}}}}}},
+			Methods: []Method{{Name: "Min", Params: []Param{{"a", tp}, {"b", tp}}, Results: []Param{{"", tp}}}, {Name: "Sorted", Params: []Param{{"", slice(tp)}}, Results: []Param{{"", bl}}}}})
+	}
 	// a parameter named like the source package itself, followed by one typed from that package
 	mk("FxOwnPkg",
 		Method{Name: "Attach", Params: []Param{{t.SrcName, str}, {"opts", local(t.Locals.Struct)}}},
@@ -968,7 +998,21 @@ func NewMatrixTree(kind string, hz Hazards) *Tree {
 		t.Ifaces = append(t.Ifaces,
 			&Iface{Name: "StLogA", File: 0, Exportable: true, Tags: []string{"matrix"}, Methods: []Method{{Name: "Audit", Params: []Param{{"l", pkgT(la, "Thing")}}}}},
 			&Iface{Name: "StLogB", File: 1, Exportable: true, Tags: []string{"matrix"}, Methods: []Method{{Name: "Trace", Params: []Param{{"l", pkgT(lb, "Thing")}}, Results: []Param{{"", er}}}}})
-		t.FixedRequests = [][]string{{"StA", "StB"}, {"StB", "StA"}, {"StC", "StB"}, {"StA", "StC", "StB"}, {"StLogA", "StLogB"}, {"StLogB", "StLogA"}}
+		// a generic interface whose constraint comes from a/client, requested before and after the interface that
+		// brings b/client (the constraint's qualifier must follow the re-aliasing)
+		e := &T{Kind: KTParam, Name: "E"}
+		t.Ifaces = append(t.Ifaces, &Iface{Name: "StGen", File: 0, Exportable: true, Tags: []string{"matrix"},
+			TParams: []TParam{{Name: "E", CKind: "depmethod", Constraint: pkgT(ca, ca.StrIf), Arg: pkgT(ca, ca.Num)}},
+			Methods: []Method{{Name: "Get", Params: []Param{{"id", basic("int")}}, Results: []Param{{"", e}}}}})
+		// a project-local package named sync, used without importing the std one
+		{
+			uid := b.nextUID()
+			t.Deps = append(t.Deps, &Dep{Path: t.ModPath + "/x/sync", Dir: "x/sync", Name: "sync", UID: uid, Struct: "Thing", Ifaces: []string{"Iface"}, Embed: "Emb" + uid, EmbedMethods: []string{"Em" + uid},
+				Func: "Func", Gen: "Gen", Num: "Num", Constr: "Constr", StrIf: "Str", GenAlias: "List"})
+			ls := t.Deps[len(t.Deps)-1]
+			t.Ifaces = append(t.Ifaces, &Iface{Name: "StSync", File: 1, Exportable: true, Tags: []string{"matrix"}, Methods: []Method{{Name: "Guard", Params: []Param{{"m", pkgT(ls, "Thing")}}, Results: []Param{{"", er}}}}})
+		}
+		t.FixedRequests = [][]string{{"StA", "StB"}, {"StB", "StA"}, {"StC", "StB"}, {"StA", "StC", "StB"}, {"StLogA", "StLogB"}, {"StLogB", "StLogA"}, {"StGen", "StB"}, {"StB", "StGen"}, {"StSync"}, {"StSync", "StA"}}
 		if kind == "stale-regen" {
 			// regeneration corpus: without the parameters named like the re-aliased package (KF-regeneration-alias-feedback)
 			var keep []*Iface
@@ -982,7 +1026,7 @@ func NewMatrixTree(kind string, hz Hazards) *Tree {
 				keep = append(keep, i)
 			}
 			t.Ifaces = keep
-			t.FixedRequests = [][]string{{"StA", "StB"}, {"StB", "StA"}, {"StLogA", "StLogB"}, {"StLogB", "StLogA"}, {"StA", "StLogB", "StB"}}
+			t.FixedRequests = [][]string{{"StA", "StB"}, {"StB", "StA"}, {"StLogA", "StLogB"}, {"StLogB", "StLogA"}, {"StA", "StLogB", "StB"}, {"StSync"}, {"StSync", "StA"}, {"StGen", "StB"}}
 		}
 	case "numbered":
 		names := []string{"s", "s1", "s2", "s3", "_"}
